@@ -7,6 +7,7 @@ import L21.Driver.GdsIO
 import L21.Driver.LefRawIO
 import L21.Driver.RawProtoIO
 import L21.Driver.RawLefIO
+import L21.Driver.LayersIO
 import L21.Driver.RawGdsIO
 import L21.Driver.PlaceIO
 import L21.Driver.LefIO
@@ -205,6 +206,7 @@ def dispatch (op : String) (args : List Sexp) : String :=
   | "geom.contains" => opContains args
   | "dep.tolerant" => "unsupported"
   | "dep.ports" => "unsupported"
+  | "layers.ops" => opLayersOps args
   | "dep.generic" => opDep false args
   | "dep.raw" => opDep true args
   | "dep.tetris" => opDep true args
